@@ -178,3 +178,46 @@ func VerifH_C03_RequestBudget() {
 	verifrt.Assert(resp.ID == m.ID && resp.Response && resp.RecursionDesired && resp.RecursionAvailable, "with the query's ID, QR, RD, RA")
 	verifrt.Assert(len(resp.Questions) == 1 && vLowerEq(resp.Questions[0].Name, q.Name), "and question")
 }
+
+// VerifH_C03_GnetBurst: the event-driven listener is called ONCE per socket read and is never called again for bytes
+// it left in the connection's buffer: a burst of 40 complete pipelined queries arriving in one read (well under the
+// per-connection limit of 100 in-flight queries) must all be decoded by that one call — nothing is left behind — and
+// every one of them gets exactly one response with its own ID, question and answer.
+func VerifH_C03_GnetBurst() {
+	verifrt.Unwind(400)
+	verifrt.SchedBound(0)
+	verifrt.CtxNoExpiry = true
+	up := &vKeyedUpstream{}
+	r := vRouter([]*rule{{upstream: &upstreamWrapper{tag: "up", u: up}}}, false)
+	e := &gnetServer{r: r, maxConcurrent: 100, idleTimeout: 1}
+	c := &vGnetConn{}
+	_, act := e.OnOpen(c)
+	verifrt.Assert(act == 0, "connection admitted")
+	const n = 40
+	mark := func(i int) byte { // 40 distinct label octets that case folding leaves alone
+		if i < 26 {
+			return byte('a' + i)
+		}
+		return byte('0' + i - 26)
+	}
+	for i := 0; i < n; i++ {
+		c.buf = append(c.buf, vFrame(vQueryMsg(uint16(0x100+i), mark(i), false, 0))...)
+	}
+	a := e.OnTraffic(c)
+	verifrt.Assert(a == 0, "well-formed traffic never closes the connection")
+	verifrt.Assert(len(c.buf) == 0, "one call consumes every complete frame of the read: the event loop will not call again for them")
+	verifrt.Quiesce()
+	verifrt.Reach("served")
+	bodies := vCheckFrames(c.writes)
+	verifrt.Assert(len(bodies) == n, "every query of the burst is answered exactly once")
+	seen := [n]int{}
+	for _, b := range bodies {
+		i := int(uint16(b[0])<<8|uint16(b[1])) - 0x100
+		verifrt.Assert(i >= 0 && i < n, "response to one of the queries")
+		seen[i]++
+		vCheckResponse(b, uint16(0x100+i), mark(i), true)
+	}
+	for i := 0; i < n; i++ {
+		verifrt.Assert(seen[i] == 1, "each query answered exactly once")
+	}
+}
